@@ -812,6 +812,7 @@ def helper_lines(k, env, rep):
              b"\x05\x01\x02\x03\x04", b"\x05\x01\x02\x03\x04\x05", b"\x20", b"\x40", b"\x80",
              b"\x18\x00", b"\x18\x01", b"\x10\xff" + b"a" * 254, b"\x10\xff" + b"a" * 255,
              b"\x1d" + b"\x01" * 5 + b"\x02ab" + b"kid", b"\x0e" + b"\0" * 6 + b"k"]
+    zvals = [unhx(c["z"]) for _, c in load_corpus("C11") if "z" in c] + zvals
     for fb in range(256):
         zvals.append(bytes([fb]))
         zvals.append(bytes([fb]) + bytes(rng.randrange(256) for _ in range(rng.randrange(0, 9))))
@@ -945,11 +946,20 @@ def run(env, rep):
     helper_lines(k, env, rep)
 
     scns = []
+    sink = Sink(rep)
     for fn, c in load_corpus("C11"):
-        if "scn" in c:
+        if "scn" in c and "manip" in c:
+            # a recorded manipulation: base exchange without the generated manipulations, then it
+            _, art = run_scenario(k, c["scn"], sink, rng, manip=False)
+            m = c["manip"]
+            if (m["on"] == "req" and "req_wire" in art) or \
+                    (m["on"] == "resp" and len(art.get("resp_wires", [])) > m["j"]
+                     and art["resp_wires"][m["j"]] is not None):
+                apply_manip(k, c["scn"], art, m, sink, {"scn": c["scn"]})
+            rep.count("corpus")
+        elif "scn" in c:
             scns.append(c["scn"])
-        elif "z" in c:
-            pass   # helper-level corpus entries are part of the fixed Z table
+            rep.count("corpus")
     scns += boundary_scenarios(gen, rng)
     for _ in range(env.scale(60, 900)):
         s = gen.scenario()
@@ -965,7 +975,6 @@ def run(env, rep):
             key=lambda o: o[0])
         scns.append(s)
 
-    sink = Sink(rep)
     for i, scn in enumerate(scns):
         rep.count("alg-iv=%d" % scn["alg"][1])
         rep.count("idlen=%d/%d" % (len(unhx(scn["cid"])), len(unhx(scn["sid"]))))
